@@ -813,6 +813,18 @@ func (r *replicateChannelManager) waitChannel(sourceInfo *model.SourceCollection
 					r.channelLock.Unlock()
 					continue
 				}
+				// the offered channel may have been taken by a direct assignment since it was offered:
+				// never pair it with more channels than the mapping allows
+				var hasRoom bool
+				if channelHandler.sourceKey {
+					hasRoom = r.channelMapping.CheckKeyNotExist(sourceInfo.PChannel, targetChannel)
+				} else {
+					hasRoom = r.channelMapping.CheckKeyNotExist(targetChannel, targetInfo.PChannel)
+				}
+				if !hasRoom {
+					r.channelLock.Unlock()
+					continue
+				}
 				log.Info("success to get the new replicate channel",
 					zap.Bool("source_key", channelHandler.sourceKey),
 					zap.String("target_pchannel", targetChannel),
